@@ -1,3 +1,92 @@
-"""ASan / Miri slices (thorough tiers)."""
+"""Miri and ASan slices (thorough tiers): the real code under an undefined-behaviour interpreter / address sanitizer
+on small workloads.  A report (or an abort) is a violation attributed to the first unanswered request."""
+import os
+import subprocess
+import tempfile
+
+from .. import build, core
+
+
+def miri_run(prop, label, be, lines, features=('tables',), target_feature=None, timeout=3600):
+    """run request lines through `cargo +nightly miri run`; returns a result dict like run_and_judge"""
+    build.prepare_alt_driver()
+    os.makedirs(core.LOGS, exist_ok=True)
+    with tempfile.NamedTemporaryFile('w', suffix='.req', dir=core.LOGS, delete=False) as f:
+        f.write('\n'.join(lines) + '\n')
+        inp = f.name
+    outp = inp[:-4] + '.resp'
+    env = dict(os.environ, CARGO_NET_OFFLINE='true', MIRIFLAGS='-Zmiri-disable-isolation')
+    rf = build.GUARD + ' ' + build.BACKENDS[be]
+    if target_feature:
+        rf += ' -C target-feature=' + target_feature
+    env['RUSTFLAGS'] = rf
+    cmd = ['cargo', '+nightly', 'miri', 'run', '--offline', '--target-dir', os.path.join(build.TARGET, be + '-miri')]
+    if features:
+        cmd += ['--features', ','.join(features)]
+    cmd += ['--', inp, outp]
+    res = {'violations': [], 'harness': [], 'samples': [], 'evaluations': 0, 'distinct': set(), 'per_cfg': {}, 'classes': {}}
+    try:
+        r = subprocess.run(cmd, cwd=build.DRIVER, env=env, capture_output=True, text=True, timeout=timeout)
+        rc, err = r.returncode, r.stderr
+    except subprocess.TimeoutExpired:
+        rc, err = -999, 'watchdog'
+    got = {}
+    if os.path.exists(outp):
+        for line in open(outp):
+            i, st, toks = core.parse_resp_line(line)
+            if i:
+                got[i] = (st, toks)
+        os.unlink(outp)
+    os.unlink(inp)
+    ids = [l.split()[0] for l in lines]
+    res['per_cfg'][label] = {'meta': 'miri', 'requests': len(got)}
+    res['evaluations'] = len(got)
+    res['distinct'] = set(l.split(' ', 1)[1] for l in lines if l.split()[0] in got)
+    res['classes']['miri'] = len(got)
+    if rc == -999:
+        res['harness'].append('%s: miri watchdog timeout (inconclusive)' % label)
+    elif rc != 0:
+        ub = 'Undefined Behavior' in err or 'error:' in err
+        first = next((l for l in lines if l.split()[0] not in got), None)
+        msg = [x for x in err.split('\n') if x.startswith('error')]
+        if ub and first:
+            res['violations'].append(core.Violation(prop, label, first, lines, 'no report', [], 'miri: ' + ' '.join(msg)[:400]))
+        else:
+            res['harness'].append('%s: miri run failed: %s' % (label, err[-400:]))
+    for i, (st, toks) in got.items():
+        if st == 'panic':
+            l = next(x for x in lines if x.split()[0] == i)
+            res['violations'].append(core.Violation(prop, label, l, lines, 'ok', toks, 'panic under miri: ' + ' '.join(toks)))
+    return res
+
+
+def task_miri(prop, seed, size, cfgbins, be='simd', lines=(), target_feature=None):
+    return miri_run(prop, be + '-miri' + ('+avx2' if target_feature else ''), be, list(lines), target_feature=target_feature)
+
+
 def asan_tasks(prop, seed):
-    return []
+    """C15 stream on an AddressSanitizer build"""
+    res, msgs = build.ensure([('simd', 'asan')])
+    p = res.get(('simd', 'asan'))
+    if not p:
+        return []
+    return [('vlib.props.c15', 'task', prop, seed * 1000 + 900 + i, 40, [('simd-asan', p, None)], {}) for i in range(4)]
+
+
+MIRI_DROP = [
+    'd1 mem.drop signingkey F 0102030405060708090a0b0c0d0e0f101112131415161718191a1b1c1d1e1f20 #1',
+    'd2 mem.drop signingkey T 0102030405060708090a0b0c0d0e0f101112131415161718191a1b1c1d1e1f20 #0',
+    'd3 mem.drop expandedsecretkey F ' + '11' * 64 + ' #1',
+    'd4 mem.drop ephemeral T ' + '22' * 32 + ' #1',
+    'd5 mem.drop reusable F ' + '33' * 32 + ' #1',
+    'd6 mem.drop static T ' + '44' * 32 + ' #1',
+    'd7 mem.drop shared F ' + '55' * 32 + ' #1',
+    'd8 mem.batchinv [c0500000000000000000000000000000000000000000000000000000000000000;c0700000000000000000000000000000000000000000000000000000000000000]',
+    'd9 mem.msm #0 [c0500000000000000000000000000000000000000000000000000000000000000] [B]',
+]
+MIRI_CONSTS = [
+    'k1 rs.consttable c0500000000000000000000000000000000000000000000000000000000000000',
+    'k2 ed.consttable c0700000000000000000000000000000000000000000000000000000000000000',
+    'k3 k.dump',
+    'k4 ed.mulbase cf4ffffffffffffffffffffffffffffff00000000000000000000000000000000',
+]
